@@ -374,8 +374,8 @@ GenCase(m, v) ==
       lb |-> [l \in 1..n |-> Pick(f, m, v, l - 1, 0)],
       lb2 |-> [l \in 1..n |-> Pick(f, m, IF v = 0 THEN 2 ELSE v, l - 1, 1)],
       qs |-> qs, ps |-> LatPoints, T |-> T,
-      qsT |-> qs \o [k \in 1..Len(qs) |-> XfB(qs[k], T)],
-      psT |-> LatPoints \o [k \in 1..9 |-> XfPoint(LatPoints[k], T)]]
+      qsT |-> [k \in 1..Len(qs) |-> XfB(qs[k], T)] \o SubSeq(qs, 1, 2),        \* the images of the queries + two untransformed
+      psT |-> [k \in 1..9 |-> XfPoint(LatPoints[k], T)] \o SubSeq(LatPoints, 4, 5)]
 ExpandGen(c) == GenCase(c.m, c.v)
 GenJson(c) ==
   LET lbT == [l \in DOMAIN c.lb |-> ImageBox(c.lb[l], c.T)] IN
